@@ -122,7 +122,14 @@ class TreeRef(Observer):
             self.hoo_x = x
             self.hoo_bounds = {math.ceil(x)}
             if abs(x - round(x)) < EPS * max(1.0, abs(x)):
-                self.hoo_bounds |= {round(x), round(x) + 1}
+                # within 1e-9 of an integer: if the real value IS that integer - n * nu^2 = rho^(-2k) exactly, decided in
+                # rational arithmetic over the exact values of the doubles - the published bound is k and nothing else (seeds
+                # S-C06-8/-9: budgets 4^k with rho = 1/2); otherwise a float evaluation may land on either side: both accepted
+                from fractions import Fraction
+                k = round(x)
+                fr, fn = Fraction(p["rho"]), Fraction(p["rounds"]) * Fraction(p["nu"]) ** 2
+                exact = (fn == (1 / fr) ** (2 * k)) if k >= 0 else (fn * (1 / fr) ** (-2 * k) == 1)
+                self.hoo_bounds = {k} if exact else (self.hoo_bounds | {k, k + 1})
         # constructor: the root is split once
         root = self.part.get_root()
         if self.do_growth:
